@@ -137,21 +137,11 @@ def rdRtObs : Rd (List (Option (List C14.PktObs))) :=
     | "ok" => do let l ← Rd.list rdPktObs; pure (some l)
     | _ => Rd.fail)
 
-/-- hypotheses of `c14_roundtrip`: MTU ≥ 4 (with DONL: ≥ 6, the smallest MTU at which an FU can
-    carry a payload octet), well-formed units, Annex-B framing that can carry them -/
-def rtWF (i : RtIn) : Bool :=
-  decide ((if i.cfg.addDONL then 6 else 4) ≤ i.mtu.toNat) && i.frames.all C14.frameWF
-
-def isFU (p : Bytes) : Bool := match p with | a :: b :: _ => hdrIsFU (rd16 a b) | _ => false
-
-/-- region of the known finding `c14_donl_fu`: AddDONL and some unit is fragmented -/
-def rtKF (i : RtIn) : Bool := i.cfg.addDONL && (rtPayloads i.cfg i.mtu i.frames).any (·.any isFU)
-
 def rt : Handler :=
   mkHandler rdRtIn rdRtObs (fun i => rtObs i.cfg i.mtu i.frames)
-    (fun i o => if rtWF i then C14.rtOk i.cfg i.mtu i.frames o else C14.rtNoPanic o)
-    rtWF
-    (fun i _ => if rtKF i then some "c14_donl_fu" else none)
+    (fun i o => if rtWF i.cfg i.mtu i.frames then C14.rtOk i.cfg i.mtu i.frames o else C14.rtNoPanic o)
+    (fun i => rtWF i.cfg i.mtu i.frames)
+    (fun i _ => if rtKF i.cfg i.mtu i.frames then some "c14_donl_fu" else none)
 
 /-! ### c08.h265 -/
 
